@@ -43,10 +43,17 @@ DrainOk(r) ==
   \A i \in 1..Len(r.evs) :
      r.evs[i].events = (IF r.evs[i].sid \in DOMAIN pend THEN pend[r.evs[i].sid] ELSE <<>>)
 
+\* requests about which C14 says nothing (it names reading, writing, subscribing and reconciling on a document that is
+\* not open, not these): either outcome is accepted, the state does not change in any case
+Silent(s, q) ==
+  \/ q.op \in {"Unsubscribe", "ExportSecret"} /\ ~IsOpen(s, q.d)
+  \/ q.op = "Drop" /\ ~IsOpen(s, q.d) /\ s.docs[q.d].cap = "none"          \* removing a document that is not there
+
 ReqStep(q) ==
   LET R == ActorStep(st, q) IN
-  /\ Prop = "C14" => /\ (q.res = "ok") = (R.res = "ok")
-                     /\ q.res = "ok" => ValOk(q, R)
+  /\ Prop = "C14" => \/ Silent(st, q)
+                     \/ /\ (q.res = "ok") = (R.res = "ok")
+                        /\ q.res = "ok" => ValOk(q, R)
   \* C07: a write attempt that passes the open / author gates is refused exactly when the capability is not write
   /\ (Prop = "C07" /\ q.op \in {"InsertLocal", "DeletePrefix", "ExportSecret"} /\ R.res \in {"ok", "ReadOnly", "NewerEntryExists"}
         /\ q.res \in {"ok", "ReadOnly", "NewerEntryExists"})
@@ -57,7 +64,7 @@ ReqStep(q) ==
 \* ---- concurrent clients: is there an interleaving of the two recorded sequences (each in its own order) such
 \*      that every reply is what ActorStep prescribes in the state reached?  (linearizability of the handle)
 ReplyMatches(s, q) ==
-  LET R == ActorStep(s, q) IN (q.res = "ok") = (R.res = "ok") /\ (q.res = "ok" => ValOk(q, R))
+  LET R == ActorStep(s, q) IN Silent(s, q) \/ ((q.res = "ok") = (R.res = "ok") /\ (q.res = "ok" => ValOk(q, R)))
 RECURSIVE Lin(_, _, _, _, _)
 Lin(s, c1, i, c2, j) ==
   IF i > Len(c1) /\ j > Len(c2) THEN TRUE
